@@ -129,7 +129,8 @@ class Ctx:
         self.tier = tier
         self.seed = seed
         self.t0 = time.time()
-        self.build = os.path.join(VERIF, "build", pid)
+        # VERIF_BUILD_SUFFIX lets two runs of the same check (e.g. against two trees) coexist
+        self.build = os.path.join(VERIF, "build", pid + os.environ.get("VERIF_BUILD_SUFFIX", ""))
         shutil.rmtree(self.build, ignore_errors=True)
         os.makedirs(self.build, exist_ok=True)
         self.ntlc = 0
@@ -539,7 +540,7 @@ class Ctx:
                 d = ds[0]
                 rdir = os.path.join(VERIF, "build", "replays")   # survives the next run's wipe of build/<pid>
                 os.makedirs(rdir, exist_ok=True)
-                rp = os.path.join(rdir, "%s-%s-%d.json" % (self.pid, self.tier, i))
+                rp = os.path.join(rdir, "%s%s-%s-%d.json" % (self.pid, os.environ.get("VERIF_BUILD_SUFFIX", ""), self.tier, i))
                 json.dump(dict(property=self.pid, key=key, msg=d["msg"], step=d["step"], source=d["source"],
                                label=d.get("label"), case=d["case"], count=len(ds), seed=self.seed, tier=self.tier),
                           open(rp, "w"), indent=1)
@@ -557,8 +558,9 @@ class Ctx:
         cov.update(extra_cov or {})
         ev = dict(property_id=self.pid, tier=self.tier, seed=self.seed, level=level, coverage=cov,
                   assumptions=self.assumptions, wall_s=round(time.time() - self.t0, 2), violations=len(viol))
-        os.makedirs(os.path.join(VERIF, "evidence"), exist_ok=True)
-        json.dump(ev, open(os.path.join(VERIF, "evidence", self.pid + ".json"), "w"), indent=1, sort_keys=True)
+        evdir = os.environ.get("VERIF_EVIDENCE_DIR") or os.path.join(VERIF, "evidence")
+        os.makedirs(evdir, exist_ok=True)
+        json.dump(ev, open(os.path.join(evdir, self.pid + ".json"), "w"), indent=1, sort_keys=True)
         log("%s %s: states=%d transitions=%d behaviours=%d steps=%d traces=%d violations=%d known=%d wall=%.0fs" % (
             self.pid, self.tier, self.states, self.transitions, self.behaviours, self.steps, self.traces,
             len(viol), len(known_hits), time.time() - self.t0))
